@@ -458,6 +458,7 @@ func init() {
 		}
 		checkBudget(r, prog, a, "c11")
 		r.importing = "C10"
+		checkCreateEvaluator(r, prog, a, nil, "c10") // every creation parses, once: acceptance is a function of (bytes, budget) only
 		checkRecoverDiscipline(r, prog, "c10")
 		checkResultShape(r, prog, a, a.CreateEv, "c10")
 		r.importing = ""
